@@ -118,7 +118,7 @@ class Summary:
         fi = self.prog.functions[q]
         r = False
         for x in raise_sites(self.prog, q):
-            if x.kind in ("raise", "assert") and not handlers_around(fi, x.node) and not _fresh_unit_guard(self.prog, q, x.node) \
+            if x.kind in ("raise", "assert", "reraise") and not handlers_around(fi, x.node) and not _fresh_unit_guard(self.prog, q, x.node) \
                     and self._feasible(q, x.node):
                 r = True
         if not r:
@@ -148,7 +148,7 @@ class Summary:
             if n is not None:
                 w_nodes.setdefault(n, (q, w.node))
         for x in raise_sites(self.prog, q):
-            if x.kind in ("raise", "assert") and not handlers_around(fi, x.node) and not _fresh_unit_guard(self.prog, q, x.node) \
+            if x.kind in ("raise", "assert", "reraise") and not handlers_around(fi, x.node) and not _fresh_unit_guard(self.prog, q, x.node) \
                     and self._feasible(q, x.node):
                 n = cfg.node_of(x.node)
                 if n is not None:
@@ -248,6 +248,31 @@ def guarded_bindings(rep: Report, prog: Program, resolver: Resolver) -> None:
                               {y.id for y in ast.walk(i.test) if isinstance(y, ast.Name)}} & (assigned_names - set(al)))
                 if wn is not None and on is not None and on in dom.get(wn, set()) and cond_ok:
                     ok = True
+            if not ok:
+                # the validation may live in a helper of the class that is called, with the key, before the store
+                for cs in resolver.callsites(q):
+                    if not (cs.kind == "call" and cs.targets and isinstance(cs.node, ast.Call)):
+                        continue
+                    cn = cfg.node_of(cs.node)
+                    if cn is None or wn is None or cn not in dom.get(wn, set()) or cn == wn:
+                        continue
+                    if _conditions(fi, cs.node) and not all((t_, a_) in wconds for t_, a_, _ in _conditions(fi, cs.node)):
+                        continue
+                    for tq in cs.targets:
+                        h = prog.functions.get(tq)
+                        if h is None or h.cls != fi.cls:
+                            continue
+                        hps = h.params()[1:] if cs.bound else h.params()
+                        amap = {p_: ast.unparse(a_) for p_, a_ in zip(hps, cs.args)}
+                        amap.update({k_: ast.unparse(v_) for k_, v_ in cs.kwargs.items()})
+                        for g in ast.walk(h.node):
+                            if not (isinstance(g, ast.If) and g.body and isinstance(g.body[-1], ast.Raise)):
+                                continue
+                            gnames = {amap.get(x.id, x.id) for x in ast.walk(g.test) if isinstance(x, ast.Name)}
+                            mentions = any(location_of(prog, resolver, h, x) == w.location for x in ast.walk(g.test) if isinstance(x, (ast.Name, ast.Attribute)))
+                            key_names = {x.id for x in ast.walk(tgt.slice) if isinstance(x, ast.Name)}
+                            if mentions and key_names and key_names <= gnames:
+                                ok = True
             rep.check("R19.2", f"{q}:{reg}[{keytxt}]", ok,
                       f"`{ast.unparse(node)}` binds {keytxt} without first rejecting a key already bound to another object: "
                       "a name or symbol can be silently rebound to a second object", fi.where(node))
@@ -331,7 +356,7 @@ def interned_construction(rep: Report, prog: Program, resolver: Resolver, summ: 
         required = {a for v in stores.values() for a in v.split(",")} - {"_initialized"}
         rnodes: List[Tuple[int, ast.AST, str]] = []
         for x in raise_sites(prog, fi.qual):
-            if x.kind in ("raise", "assert") and not handlers_around(fi, x.node):
+            if x.kind in ("raise", "assert", "reraise") and not handlers_around(fi, x.node):
                 n = cfg.node_of(x.node)
                 if n is not None:
                     rnodes.append((n, x.node, fi.qual))
